@@ -3,6 +3,9 @@ import json, os, subprocess
 ROOT = os.path.dirname(os.path.dirname(os.path.abspath(__file__)))
 TECH = "machine-checked proof in Coq 8.16 ({tie})"
 P = {
+ "C11": dict(tie="hand model + end-to-end correspondence",
+   text="Model of the SigV2 string-to-sign (method, Content-MD5, Content-Type, Date/empty/Expires, grouped x-amz-* headers, virtual-host bucket + raw path + the documented sub-resources), of the two V2 parsers and checks. Theorems for every MAC and provider: header acceptance implies a Date/x-amz-date header, a known key and signature = MAC(secret, string-to-sign), identity = that key; presigned acceptance additionally implies now <= Expires; V2 is decided before V4. The AWS documentation examples evaluate to the documented signatures with the Gallina HMAC-SHA1/base64. Tied to the code by reference-signed header and presigned requests (path and virtual-hosted style), single-component mutations and expiry placements, each verdict compared with the model.",
+   note="Trusted: Coq kernel; hand model; Gallina SHA-1/HMAC/base64; Python reference signer (asserted against two AWS examples each run); real clock with >= 40 s margins; harness. Partial: injectivity of the V2 string-to-sign is not proved (mutations are checked by correspondence). No axioms."),
  "C12": dict(tie="hand model + correspondence check",
    text="Theorems over all byte strings: path-style and virtual-hosted-style parsing agree (also end to end through a base domain), percent-decoding inverts the client encoding for every key, the 1024-byte limit is exact, every name breaking a core naming rule is refused and every name valid under the complete rules is accepted (incl. a proof that a name over the bucket alphabet is never an IPv6 literal under the std grammar), IP hosts and parser-less services are path-style, hosts resolve case-insensitively to their base domain, invalid/overlapping configurations are refused. Model tied to the code by exhaustive short names, generated paths/hosts and end-to-end GET requests through S3Service::call.",
    note="Trusted: Coq kernel; hand models of path.rs/host.rs, of urlencoding::decode and of the core::net address grammar (transcribed from core::net::parser, checked by correspondence on address look-alikes); hyper's Uri/HeaderMap; harness. No axioms."),
